@@ -195,8 +195,18 @@ func (g *gen) floatBits(bits int) uint64 {
 }
 
 func (g *gen) leaf() *Node {
+	return g.leafOf(Kind(g.r.Intn(int(KString) + 1)))
+}
+
+// LeafOf draws a leaf of the given scalar kind (boundary-rich).
+func LeafOf(r *rng.R, k Kind, bigChance int) *Node {
+	g := &gen{r: r, cfg: Cfg{BigChance: bigChance}}
+	return g.leafOf(k)
+}
+
+func (g *gen) leafOf(k Kind) *Node {
 	r := g.r
-	switch k := Kind(r.Intn(int(KString) + 1)); k {
+	switch k {
 	case KBool:
 		return Scalar(KBool, uint64(r.Intn(2)))
 	case KByte:
